@@ -7,51 +7,92 @@
 (* (the old value, the new one, or absent - never a mixture).  Absent is   *)
 (* the value -1.  Keys are small integers; which key is a prefix of which  *)
 (* is a relation given by the scenario.                                    *)
+(*                                                                         *)
+(* For encryption at rest (C17) the state also keeps what is known about   *)
+(* the FILE that holds each key: for which key it was written (own), with  *)
+(* which value, under which store key (wm = the mode of the store when it  *)
+(* was written: "ok" = the right key, "wrongkey" = another key, "plain" =  *)
+(* no encryption), a serial number, and whether somebody damaged it behind *)
+(* the store's back (bit flip, truncation, extension).  Copying another    *)
+(* key's file over it (swap) copies that record.  orig is the file as the  *)
+(* store itself wrote it last.                                             *)
 (***************************************************************************)
 EXTENDS Integers, FiniteSets, Sequences
 
 Absent == -1
 
-\* st = [cand: key -> set of values, tampered: set of keys, mode: "ok" | "wrongkey" | "plain", enc: BOOLEAN,
-\*       lister: BOOLEAN, pre: set of <<prefix key, key>>]
+NoFile  == [own |-> -1, v |-> -1, n |-> 0, wm |-> "none", dmg |-> FALSE]
+\* a write that was cut short or failed: nothing is known about the file
+UnkFile == [own |-> -2, v |-> -1, n |-> 0, wm |-> "none", dmg |-> FALSE]
+
+\* st = [cand: key -> set of values, mode: "ok" | "wrongkey" | "plain", enc: BOOLEAN, lister: BOOLEAN,
+\*       pre: set of <<prefix key, key>>, file, orig: key -> file record, ctr: serial of the last write,
+\*       rt: "none" | "stored" | "tampered", rtv: value the transport stored, rtwm: mode under which it was stored]
 InitStore(nkeys, enc, lister, pre) ==
-  [ cand |-> [k \in 0..(nkeys - 1) |-> {Absent}], tampered |-> {}, mode |-> "ok", enc |-> enc, lister |-> lister, pre |-> pre ]
+  [ cand |-> [k \in 0..(nkeys - 1) |-> {Absent}], mode |-> "ok", enc |-> enc, lister |-> lister, pre |-> pre,
+    file |-> [k \in 0..(nkeys - 1) |-> NoFile], orig |-> [k \in 0..(nkeys - 1) |-> NoFile], ctr |-> 0,
+    rt |-> "none", rtv |-> -1, rtwm |-> "none" ]
 
 Present(st, k)   == st.cand[k] # {Absent}
 MayBeAbsent(st, k) == Absent \in st.cand[k]
-Readable(st, k)  == ~(st.enc /\ (k \in st.tampered \/ st.mode # "ok"))
+\* the file is not what the store wrote last
+Tampered(st, k) == st.file[k] # st.orig[k]
+\* an encrypted store can decrypt the file: written for this key, under the key in use, undamaged
+Decryptable(st, k) == LET f == st.file[k] IN f.own = k /\ ~f.dmg /\ f.wm = st.mode
+\* the map contract covers this key now: nobody touched the file and the store is the one that wrote it
+Covered(st, k) == ~Tampered(st, k) /\ st.mode = "ok" /\ st.file[k].wm \in {"ok", "none"}
 
 \* transitions (what the map looks like after an operation with the given outcome)
+Written(st, k, v) == [own |-> k, v |-> v, n |-> st.ctr + 1, wm |-> st.mode, dmg |-> FALSE]
 DoSet(st, k, v, ok) ==
-  IF ok THEN [st EXCEPT !.cand[k] = {v}, !.tampered = st.tampered \ {k}]
-  ELSE [st EXCEPT !.cand[k] = st.cand[k] \cup {v}]
+  IF ok THEN [st EXCEPT !.cand[k] = {v}, !.file[k] = Written(st, k, v), !.orig[k] = Written(st, k, v), !.ctr = st.ctr + 1]
+  ELSE [st EXCEPT !.cand[k] = st.cand[k] \cup {v}, !.file[k] = UnkFile, !.orig[k] = UnkFile]
 DoCutSet(st, k, v, ok) ==
-  IF ok THEN [st EXCEPT !.cand[k] = {v}, !.tampered = st.tampered \ {k}]
-  ELSE [st EXCEPT !.cand[k] = st.cand[k] \cup {v, Absent}]
-DoDel(st, k, ok) == IF ok THEN [st EXCEPT !.cand[k] = {Absent}, !.tampered = st.tampered \ {k}] ELSE st
-DoTamper(st, k) == [st EXCEPT !.tampered = st.tampered \cup {k}]
+  IF ok THEN DoSet(st, k, v, TRUE)
+  ELSE [st EXCEPT !.cand[k] = st.cand[k] \cup {v, Absent}, !.file[k] = UnkFile, !.orig[k] = UnkFile]
+DoDel(st, k, ok) == IF ok THEN [st EXCEPT !.cand[k] = {Absent}, !.file[k] = NoFile, !.orig[k] = NoFile] ELSE st
+Damaged(f) == [f EXCEPT !.dmg = TRUE]
+DoTamper(st, k, how, k2) ==
+  IF how = "swap" /\ k2 \in DOMAIN st.file /\ st.file[k2].own >= 0 /\ st.file[k].own >= 0
+    THEN [st EXCEPT !.file[k] = st.file[k2]]
+  ELSE [st EXCEPT !.file[k] = Damaged(st.file[k])]
+\* every file under the store directory damaged
+DoTamperAll(st) ==
+  [st EXCEPT !.file = [k \in DOMAIN st.file |-> IF st.file[k] = NoFile THEN NoFile ELSE Damaged(st.file[k])],
+             !.rt = IF st.rt = "none" THEN "none" ELSE "tampered"]
 DoMode(st, m) == [st EXCEPT !.mode = m]
+\* the transport stored a response whose body is value v / fetched a response because it could not use the stored one
+DoRtStore(st, v) == [st EXCEPT !.rt = "stored", !.rtv = v, !.rtwm = st.mode]
 
 \* judgements (is the observed outcome one the map allows?)
 SetOK(st, k, ok) == ok \/ st.mode # "ok"
 \* map behaviour of Get (C14, C15); a file modified behind the store's back, or a store opened
 \* with another key, is outside the map contract
 GetOK(st, k, ok, nx, rv, torn) ==
-  (k \notin st.tampered /\ st.mode = "ok") =>
+  Covered(st, k) =>
        /\ torn = 0
        /\ (ok => rv \in st.cand[k] \ {Absent})
        /\ (~ok => nx /\ MayBeAbsent(st, k))
-\* confidentiality / integrity behaviour of Get under encryption (C17)
+\* confidentiality / integrity behaviour of Get under encryption (C17): what an encrypting store returns is
+\* exactly what was encrypted for this key under this store key; a plain reader of encrypted files sees no value
 GetSecretOK(st, k, ok, rv) ==
-  (st.enc /\ Present(st, k)) =>
-       /\ (k \in st.tampered => ~ok)
-       /\ (st.mode = "wrongkey" => ~ok)
-       /\ (st.mode = "plain" => (ok => rv < 0))
+  (st.enc /\ st.file[k].own >= 0) =>
+       LET f == st.file[k] IN
+       IF st.mode = "plain" THEN (f.wm # "plain" => (ok => rv < 0))
+       ELSE /\ (~Decryptable(st, k) => ~ok)
+            /\ (Decryptable(st, k) /\ ok => rv = f.v)
 DelOK(st, k, ok, nx) ==
-  IF k \in st.tampered \/ st.mode # "ok" THEN TRUE
+  IF Tampered(st, k) \/ st.mode # "ok" THEN TRUE
   ELSE (ok => Present(st, k)) /\ (~ok => nx /\ MayBeAbsent(st, k))
 KeysOK(st, p, ok, ks, unknown) ==
   /\ ok /\ unknown = 0
   /\ \A k \in ks : (p = -1 \/ <<p, k>> \in st.pre) /\ Present(st, k)
   /\ \A k \in DOMAIN st.cand : (p = -1 \/ <<p, k>> \in st.pre) /\ ~MayBeAbsent(st, k) => k \in ks
+\* the transport on top of an encrypting store (C17): stored files that were altered, or that were written under
+\* another key, are a miss - the stored body is not served and the origin is asked
+RtGetOK(st, ok, rv, ncalls) ==
+  (st.enc /\ st.mode # "plain" /\ st.rt # "none" /\ (st.rt = "tampered" \/ st.rtwm # st.mode)) =>
+       ok /\ rv # st.rtv /\ ncalls >= 1
+\* a usable AES key has 16, 24 or 32 bytes
+UsableKeyLen(n) == n \in {16, 24, 32}
 =============================================================================
